@@ -8,9 +8,20 @@ RV=${RV:-/tmp/sv/verif2}; RR=${RR:-/tmp/sv/clean}
 D=/verif/seeded/$N
 P=$D/patch.diff; [ -f $D/patch.rebased.diff ] && P=$D/patch.rebased.diff
 [ -z "$(git -C $RR status --short)" ] || { echo "$RR not clean"; exit 2; }
-git -C $RR apply $P || { echo "recheck: patch does not apply" >> $D/confirm.log; exit 2; }
+if ! git -C $RR apply $P 2>/dev/null; then
+  # the tree moved on (hook points, fix commits): rebase the change by a 3-way merge and keep the rebased diff
+  if git -C $RR apply --3way $D/patch.diff >/dev/null 2>&1 && ! git -C $RR diff --name-only --diff-filter=U | grep -q .; then
+    git -C $RR diff HEAD > $D/patch.rebased.diff
+    (cd $RR && GOFLAGS=-mod=mod GOPROXY=off go build ./... >/dev/null 2>&1) || { echo "recheck: rebased patch does not build" >> $D/confirm.log; git -C $RR reset -q --hard; exit 2; }
+    echo "recheck: patch rebased onto $(git -C $RR rev-parse --short HEAD) (patch.rebased.diff)" >> $D/confirm.log
+    git -C $RR reset -q   # keep the working tree change, drop the index state of --3way
+  else
+    git -C $RR reset -q --hard; git -C $RR clean -fdq
+    echo "recheck: patch does not apply to $(git -C $RR rev-parse --short HEAD)" >> $D/confirm.log; exit 2
+  fi
+fi
 for c in "$@"; do
   out=$(cd $RV && VERIF_REPO=$RR ./check $c --tier quick 2>&1 | grep -E "^(OK|VIOLATION|KNOWN-FINDING|  [a-z])" | cut -c1-400 | tr '\n' '|')
   echo "recheck $c: $out" | tee -a $D/confirm.log | cut -c1-300
 done
-git -C $RR checkout -- . ; git -C $RR clean -fdq
+git -C $RR reset -q --hard; git -C $RR clean -fdq
